@@ -83,7 +83,32 @@ class Result:
         return [(k, v) for k, v in s.props.items() if v['status'] == 'SUCCESS' and (pat is None or re.search(pat, v['description']))]
 
 
+class Slot:
+    """machine-wide limit on concurrently running solver processes (several check.py processes may run at once): one of N lock files"""
+    N = int(os.environ.get('VERIF_SLOTS', '14'))
+    def __enter__(s):
+        import fcntl
+        d = os.path.join(VERIF, 'build', '.slots'); os.makedirs(d, exist_ok=True)
+        while True:
+            for i in range(s.N):
+                f = open(os.path.join(d, 'slot%d' % i), 'w')
+                try:
+                    fcntl.flock(f, fcntl.LOCK_EX | fcntl.LOCK_NB); s.f = f; return s
+                except OSError:
+                    f.close()
+            time.sleep(0.5)
+    def __exit__(s, *a):
+        import fcntl
+        try: fcntl.flock(s.f, fcntl.LOCK_UN); s.f.close()
+        except Exception: pass
+
+
 def cbmc(cfile, entry, unwind=None, unwindset=None, timeout=300, mem_gb=24, extra=(), trace=True, flags=None, objbits=None):
+    with Slot():
+        return _cbmc(cfile, entry, unwind, unwindset, timeout, mem_gb, extra, trace, flags, objbits)
+
+
+def _cbmc(cfile, entry, unwind=None, unwindset=None, timeout=300, mem_gb=24, extra=(), trace=True, flags=None, objbits=None):
     r = Result()
     cmd = ['cbmc', cfile, '--function', entry, '--json-ui'] + list(CBMC_FLAGS if flags is None else flags)
     if unwind is not None:
@@ -128,8 +153,9 @@ def cbmc(cfile, entry, unwind=None, unwindset=None, timeout=300, mem_gb=24, extr
         if 'result' in item:
             got_result = True
             for pr in item['result']:
-                r.props[pr['property']] = {'description': pr.get('description', ''), 'status': pr['status'],
-                                           'trace': pr.get('trace'), 'loc': pr.get('sourceLocation', {})}
+                desc = pr.get('description', '')
+                r.props[pr['property']] = {'description': desc, 'status': pr['status'],
+                                           'trace': None if desc.startswith('WITNESS') else pr.get('trace'), 'loc': pr.get('sourceLocation', {})}
         if item.get('messageType') == 'ERROR':
             msgs.append(item.get('messageText', ''))
     r.log = '\n'.join(msgs)[-3000:]
